@@ -82,10 +82,21 @@ def iFind (test read : KeyForm) (cs : Classes) (kind : Name) : Option Cls :=
   | some _ => clsGet cs (keyOf read kind)
   | none => none
 
-def iDefine (test stored store : KeyForm) (cs : Classes) (kind : Name) (attrs : List (Name × Name)) : Option Classes :=
+/-- two names of the list match (the loop with the `unames` set: a name is rejected when an earlier one matches) -/
+def dupWith (mf : MatchForm) : List Name → Bool
+  | [] => false
+  | n :: r => r.any (fun m => namesMatch mf m n) || dupWith mf r
+
+def iDefine (test stored store : KeyForm) (collision : Option MatchForm) (cs : Classes) (kind : Name)
+    (attrs : List (Name × Name)) : Option Classes :=
   match clsGet cs (keyOf test kind) with
   | some _ => none
-  | none => some (cs ++ [(keyOf store kind, { kind := keyOf stored kind, attrs := attrs, refs := [] })])
+  | none =>
+    let collides : Bool := match collision with
+      | some mf => dupWith mf (attrs.map fun a => a.1)
+      | none => false
+    if collides then none
+    else some (cs ++ [(keyOf store kind, ({ kind := keyOf stored kind, attrs := attrs, refs := [] } : Cls))])
 
 /-! ### equalities -/
 
@@ -133,7 +144,15 @@ theorem findMetaclass_eq (cs : Classes) (kind : Name) :
   simp only [findTestKey, findReadKey, keyOf]
   cases clsGet cs (fold kind) <;> rfl
 
+theorem dupFold_eq : ∀ (l : List Name), dupFold l = dupWith .upperBoth l
+  | [] => rfl
+  | n :: r => by simp only [dupFold, dupWith, namesMatch, dupFold_eq r]
+
 theorem defineClass_eq (cs : Classes) (kind : Name) (attrs : List (Name × Name)) :
-    defineClass cs kind attrs = iDefine defineTestKey defineStoredKind defineStoreKey cs kind attrs := rfl
+    defineClass cs kind attrs =
+      iDefine defineTestKey defineStoredKind defineStoreKey defineAttrCollision cs kind attrs := by
+  unfold defineClass iDefine
+  simp only [defineTestKey, defineStoredKind, defineStoreKey, defineAttrCollision, keyOf, dupFold_eq]
+  rfl
 
 end Pyx.AShape
